@@ -270,42 +270,50 @@ def run(ctx):
     fams, err, bb = build_families(f)
     ent_names = ('from_entropy', 'thread_rng', 'OsRng', 'rand::random')
     ent = cg.callers_of(lambda n: any(x in n for x in ent_names))
-    # judged in the builder's nest form: a closure handed to unwrap_or_else / a helper is spliced into the builder
+    # judged in the builder's nest form: a closure handed to unwrap_or_else / a helper is spliced into the builder.  A second
+    # constructor over the same builder record (`try_build`, `impl TryFrom<Builder>`: the helper that derives the values spliced
+    # into each) is judged the same way; any other function holding an entropy source is outside the builder
     nbb = f.nest_form(bb, yields=False) if bb is not None else None
     spliced = set(getattr(nbb, 'inlined', [])) if nbb is not None else set()
-    sites = []
+    bty = _strip_ref(bb.local_ty(1)) if bb is not None and bb.args() else None
+    judged = [nbb] if nbb is not None else []
     outside = []
     for k, s in ent:
         b = f.bodies[k]
         if bb is not None and (b is bb or b.path == bb.path or b.path in spliced):
             continue
+        if bty and not b.is_closure and b.args() and _strip_ref(b.local_ty(b.args()[0])) == bty and b.crate_kind == 'lib':
+            nb2 = f.nest_form(b, yields=False)
+            if nb2 is not None and all(x.path != nb2.path for x in judged):
+                judged.append(nb2)
+            continue
         outside.append((b, s['bb']))
-    if nbb is not None:
-        sites = [(bi, tt) for bi, tt in nbb.calls() if any(x in (callee_name(tt) or '') for x in ent_names)]
     for b, sbi in outside:
         rep.fail('R5', 'entropy-only-when-unseeded:%s' % b.path, where(b, sbi),
                  'an entropy-seeded generator is created outside the builder')
-    if nbb is not None:
-        from ..cfg import CFG
-        t = Tracer(nbb)
-        cfg = CFG(nbb)
+    from ..cfg import CFG
+    for nb in judged:
+        sites = [(bi, tt) for bi, tt in nb.calls() if any(x in (callee_name(tt) or '') for x in ent_names)]
+        t = Tracer(nb)
+        cfg = CFG(nb)
+        a1 = nb.args()[0] if nb.args() else 1
         for sbi, _tt in sites:
             guard_ok = False
             for bi in sorted(cfg.reach):
-                tt = nbb.blocks[bi]['term']
+                tt = nb.blocks[bi]['term']
                 if tt['t'] == 'switch':
                     o = t.origin(tt['discr'])
                     if o['o'] == 'rvalue' and o['rv']['r'] == 'discr':
                         po = t.origin(dict(o['rv']['place'], k='copy'))
                         if not (field_path(o['rv']['place']['p']) == ['seed'] or
-                                (po['o'] == 'arg' and po['l'] == 1 and field_path(po['p']) == ['seed'])):
+                                (po['o'] == 'arg' and po['l'] == a1 and field_path(po['p']) == ['seed'])):
                             continue
                         none_t = [x[1] for x in tt['arms'] if x[0] == '0'] or [tt['otherwise']]
                         some_t = [x[1] for x in tt['arms'] if x[0] == '1'] or [tt['otherwise']]
                         r_some = cfg.reachable_from(some_t, avoid=set(none_t))
                         r_none = cfg.reachable_from(none_t, avoid=set(some_t))
                         guard_ok = guard_ok or (sbi in r_none and sbi not in (r_some - r_none) and cfg.dominates(bi, sbi))
-            rep.check(guard_ok, 'R5', 'entropy-only-when-unseeded:%s' % bb.path, where(nbb, sbi),
+            rep.check(guard_ok, 'R5', 'entropy-only-when-unseeded:%s' % nb.path, where(nb, sbi),
                       'from_entropy is control dependent on seed == None in the builder',
                       'an entropy-seeded generator is created outside the "no seed given" branch of the builder')
     rep.floor('R5', 'entropy sources located', len(ent), 1)
@@ -314,6 +322,17 @@ def run(ctx):
         ok = bool(seeded) and all(x['fields'].get('seed') == SYM('self.seed#Some.0') for x in seeded)
         rep.check(ok, 'R6', 'optimiser-seed-is-the-builder-seed', where(bb), 'MCOptimiser.seed = builder seed when given',
                   'the optimiser does not use the seed given to the builder')
+
+
+def _strip_ref(ty):
+    ty = (ty or '').strip()
+    while ty.startswith('&'):
+        ty = ty[1:].strip()
+        if ty.startswith("'"):
+            ty = ty.split(' ', 1)[1].strip() if ' ' in ty else ty
+        if ty.startswith('mut '):
+            ty = ty[4:].strip()
+    return ty.replace('packing::', '')
 
 
 def _closures(ctx):
@@ -336,7 +355,7 @@ def _closures(ctx):
         return
     lp = loops[0]
     body = lp['loop']['body']
-    state_params = [i for i in b.args() if b.local_ty(i).startswith('impl ')]
+    state_params = [i for i in b.args() if b.local_ty(i).lstrip('&').strip().startswith('impl ')]
     stages = [(bi, tt) for bi, tt in b.calls() if bi in body and bi in cfg.reach and call_matches(tt, 'optimise_state')]
     _all = list(stages)
     stages = sorted(_all, key=lambda x: sum(1 for y in _all if cfg.dominates(y[0], x[0])))
